@@ -8,6 +8,8 @@ CONSTANTS
   Routes = {"inst", "kwargs", "argv"}
   Layouts = {"flat", "nested"}
   Slim = FALSE
+  HistKinds = {}
+  MaxLookups = 0
 INVARIANT LayeringFollowsDocs
 CHECK_DEADLOCK FALSE
 INVARIANT EmitDone
